@@ -152,7 +152,7 @@ def h_rest_load_persistence_model_status_go : Nat := 0xa99de046e51c60df
 def h_rest_load_persistence_model_node_go : Nat := 0x42fc9e336bdfd1bb
 
 /-- hash of the normalised skeleton of * (internal/persistence/local/dag_store.go) -/
-def h_rest_load_persistence_local_dag_store_go : Nat := 0x18d5f96ef27ec5ec
+def h_rest_load_persistence_local_dag_store_go : Nat := 0x7b2566f08a9f9502
 
 def builderFields : List (List String) := [
   ["build", "DelaySec"],
